@@ -130,9 +130,11 @@ def run(res, a):
                        "calls replayed in lockstep, non-trivial = OS calls refused by the shim")
     res.cov["traces_validated_against_impl"] = res.cov.get("traces_validated_against_impl", 0) + nrec
     res.cov["disagreements_checked"] = res.cov.get("disagreements_checked", 0) + len(mism)
+    _td = res.cov.get("input_distribution", {}).get("thread_data_fault_cases")
     res.cov["input_distribution"] = {"roundtrips": {"%s/%s/%s" % (["os_alloc", "os_alloc_aligned", "os_alloc_aligned_at_offset"][k[0]], k[1], k[2]): v for k, v in rc_count.items()},
                                      "repetitions": rep_summary,
                                      "configs": "0: arenas enabled (1GiB reserve), 1: mi_option_disallow_arena_alloc, 2: arena_reserve=32MiB, 3: arena_eager_commit=0, 4: arena_eager_commit=0 + eager_commit=0; x %d repetitions" % reps_n}
+    if _td is not None: res.cov["input_distribution"]["thread_data_fault_cases"] = _td
     res.cov["models_used"] = ["Model/Os.v", "Model/Purge.v", "Model/Commit.v", "Model/GiveBack.v"]
     res.add_samples([F[0][:500], F[len(F) // 2][:500]] + [l for l in T if l.startswith("T rep")][:3])
     res.assumptions += ["resident-set size is kernel behaviour: the ledger of harness/shim.c follows mmap/munmap/mprotect/madvise (committed = read-write and not "
